@@ -1,7 +1,7 @@
 """C08 - raw C++ struct layout coincides with the wire layout.
 
 generator : SchemaGen (all member kinds); one generated header per Hypothesis example (compile ~0.6 s, so the
-            library's own shrinker is used)
+            library's own shrinker is used); also schemas split over 2-4 files that include each other
 oracle    : a generated program prints offsetof of every member (has_x, value, counters, first array element,
             discriminator, every arm, members of partN sub-structs relative to their part) and sizeof / alignof of
             every struct, part and union as evaluated by g++ on <schema>.pp.hpp; RefWire gives the expected numbers.
@@ -23,9 +23,9 @@ ASSUME = ["GCC 12 x86-64 ABI (the platform available here)", "RefWire is a corre
 NONTRIVIAL = {'optional', 'union', 'field_after_dynamic', 'pads'}
 
 
-def check_schema(schema, stats=None):
+def check_schema(schema, stats=None, layout=None):
     """-> None | (what, details, type name)"""
-    tu = cpph.RawTU(schema, sanitize=False)
+    tu = cpph.RawTU(schema, sanitize=False, layout=layout)
     try:
         rows = tu.layout()
     finally:
@@ -86,12 +86,42 @@ def body(schema, stats):
         raise Violation(bad[0], common.case_payload(schema, bad[2], None, bad[1]))
 
 
+def multifile_body(lay, stats):
+    """The same facts for a schema spread over several files that include each other (one prophyc run, the driver
+    includes every generated header)."""
+    schema = lay.schema
+    rw = RefWire(schema)
+    try:
+        bad = check_schema(schema, stats, layout=lay)
+    except (cpph.BuildFailed, pyh.CompileFailed) as ex:
+        stats.notes['multifile_build_failed'] += 1
+        return
+    desc = lay.describe()
+    for c in schema.composites():
+        feats = type_feats(rw, c) | {'multifile', 'files=%d' % lay.nfiles}
+        stats.case((str(desc), c.name), bool(feats & NONTRIVIAL), feats,
+                   sample=lambda: {'layout': desc, 'type': c.name})
+    if bad:
+        fid = common.classify_known(ID, schema, rw, bad[2], None, bad)
+        if fid:
+            stats.known_finding(fid, {'layout': desc, 'type': bad[2]})
+            return
+        payload = common.case_payload(schema, bad[2], None, bad[1])
+        payload['layout'] = desc
+        raise Violation(bad[0] + ' [schema split over %d files]' % lay.nfiles, payload)
+
+
 def worker(widx, seed, tier, stats):
     n = {'quick': 14, 'thorough': 400}[tier]
     opts = gen.GenOpts(avoid=common.avoid_set(ID), max_decls=10, alias_focus=4, tail_focus=6, block_focus=6)
     runner.run_given(gen.schemas(opts), body, seed, n, stats)
     if opts.avoid and widx < 2:
         runner.run_given(gen.schemas(gen.GenOpts(max_decls=10)), body, seed + 1, 6, stats)
+    if not stats.violations:
+        from vlib import multifile
+        mo = gen.GenOpts(avoid=common.avoid_set(ID), min_decls=5, max_decls=10, big_sizes=False, const_exprs=True)
+        runner.run_given(multifile.layouts(mo, min_files=2, max_files=4), multifile_body, seed + 2,
+                         {'quick': 4, 'thorough': 100}[tier], stats, shrink=(tier == 'thorough'))
 
 
 def run(tier, seed):
